@@ -309,7 +309,81 @@ def check_case(ctx, case, rng, cc=None):
                 viol("dump", "dump-length-differs-from-len", data=data, got=len(d), want=n)
 
 
+def mixed_modes(ctx, n):
+    """An aligned structure (its declaration loaded with align=True) used as a member / array element of a packed
+    structure, at an offset k that may or may not be a multiple of its alignment.  The packed rule gives the outer
+    size (members back to back, the inner one with its own padded size); len, bytes consumed and bytes dumped must
+    agree with it, the member after the inner one and every array element sit where the layout says."""
+    import io
+
+    for i in range(n):
+        rng = ctx.rng("mixed", i)
+        case = engine.make_case(rng, fixed_only=True, dyn_unions=False, eof=False, ptrs=False, leb=False, wchar=False,
+                                max_fields=rng.choice([2, 3, 5]), max_depth=1)
+        if gen.has_eof(case["top"]) or gen.node_dynamic(case["top"]):
+            continue
+        k = rng.choice([0, 1, 2, 3, 4, 5, 7, 8, 9, 16])
+        endian = rng.choice("<>")
+        outer = (f"struct outer {{ uint8 lead[{k}]; T body; uint8 next; }};\n"
+                 f"struct outer2 {{ uint8 lead[{k}]; T arr[2]; uint8 next; }};\n")
+        for compiled in (True, False):
+            det = {"text": case["text"], "outer": outer, "k": k, "endian": endian, "compiled": compiled,
+                   "workload": "mixed-modes"}
+            try:
+                cs = lib.cstruct(endian=endian)
+                cs.load(case["text"], align=True, compiled=compiled)
+                cs.load(outer, compiled=compiled)
+            except Exception as e:  # noqa: BLE001
+                ctx.violation("mixed-modes", f"load-fails:{type(e).__name__}", dict(det, error=lib.exc_sig(e)))
+                continue
+            T = cs.T
+            L, al = len(T), T.alignment
+            if L == 0:
+                continue
+            aligned_pos = k % al == 0
+            ctx.evaluation(("mixed", case["text"], k, endian, compiled))
+            ctx.cell("mixed-modes", "mixed-modes:" + ("aligned-offset" if aligned_pos else "unaligned-offset"))
+            data = bytes(rng.randrange(1, 256) for _ in range(k + 2 * L + 1 + 16))
+            problems = []
+            for name, count in (("outer", 1), ("outer2", 2)):
+                O = getattr(cs, name)
+                want_len = k + count * L + 1
+                if len(O) != want_len:
+                    problems.append(f"len({name})={len(O)} but members back to back give {want_len}")
+                    continue
+                st = io.BytesIO(data)
+                try:
+                    o = O(st)
+                    d = o.dumps()
+                except Exception as e:  # noqa: BLE001
+                    problems.append(f"{name}: {lib.exc_sig(e)}")
+                    continue
+                if st.tell() != want_len:
+                    problems.append(f"{name}: parsing consumed {st.tell()} bytes, len is {want_len}")
+                if len(d) != want_len:
+                    problems.append(f"{name}: dumps() wrote {len(d)} bytes, len is {want_len}")
+                if int(o.next) != data[want_len - 1]:
+                    problems.append(f"{name}: member after the aligned structure read from the wrong position")
+                if count == 2:
+                    try:
+                        alone = [T(data[k + j * L:k + (j + 1) * L]) for j in range(2)]
+                        if [repr(x) for x in alone] != [repr(x) for x in o.arr]:
+                            problems.append(f"{name}: array elements are not at k + j*len(T)")
+                    except Exception:  # noqa: BLE001
+                        pass
+            if not problems:
+                ctx.event("mixed_modes_consistent")
+                continue
+            if aligned_pos:
+                ctx.violation("mixed-modes", "aligned-structure-in-packed-structure:size-consumed-dumped-disagree",
+                              dict(det, problems=problems))
+            else:
+                ctx.violation("mixed-modes", "K9:aligned-structure-at-unaligned-position-pads-on-absolute-stream-position",
+                              dict(det, problems=problems))
+
+
 def run(ctx):
+    mixed_modes(ctx, 10 if not ctx.thorough else 150)
     cc = CCompilerOracle(ctx)
     for i in range(N_CASES[ctx.tier]):
         if ctx.out_of_time():
@@ -325,6 +399,10 @@ def run(ctx):
 
 
 def replay(ctx, detail):
+    if detail.get("workload") == "mixed-modes":
+        print({k: v for k, v in detail.items()})
+        mixed_modes(ctx, 150)
+        return
     case = engine.case_from_detail(detail)
     print("definition:\n" + case["text"])
     print("config:", detail["cfg"])
